@@ -205,6 +205,37 @@ def check(ctx: Ctx, col: Collector, tier: str) -> None:
                         f"returned declaration: markers raised before it are lost")
             else:
                 col.ok("C20.FLUSH", key, repo.loc(GEN, fi.node), "every flush result is embedded in the returned text")
+        # across iterations of one loop: a marker left pending by one iteration is printed by a nested emitter that a
+        # later iteration calls first (the effect trace holds one peeled and one summarised iteration only)
+        for loop in [x for x in ast.walk(fi.node) if isinstance(x, ast.For)]:
+            inside = lambda e, lp=loop: lp.lineno <= getattr(e.node, "lineno", 0) <= (lp.end_lineno or 0)  # noqa: E731
+            leaves_dirty, enters_nested = None, None
+            for o in outs:
+                if o.kind == "raise":
+                    continue
+                st, la = "clean", None
+                first_n = None
+                cleaned = False
+                for k, e in events(o):
+                    if not inside(e):
+                        continue
+                    if k == "A":
+                        st, la = "dirty", e
+                    elif k == "F":
+                        st, cleaned = "clean", True
+                    elif k == "N":
+                        if first_n is None and not cleaned and st == "clean":
+                            first_n = e
+                        st = "dirty" if e.target[5:] in residue else "clean"
+                        if st == "dirty":
+                            la = e
+                        cleaned = True
+                if st == "dirty" and leaves_dirty is None:
+                    leaves_dirty = la
+                if first_n is not None and enters_nested is None:
+                    enters_nested = first_n
+            if leaves_dirty is not None and enters_nested is not None:
+                steal.append((leaves_dirty, enters_nested))
         key = f"{GEN}::{GENCLS}.{n}::nested-entered-clean"
         if steal:
             a, e = steal[0]
